@@ -6,7 +6,7 @@ by call against the list-of-lists reference model in engines/circuit_model.py an
 freshly rebuilt circuit (cache coherence).  See DESIGN.md section 3 (E5) and section 4 (C05).
 
 Violation classes: C05-OVERLAP, C05-LOST, C05-DUP, C05-ATOMIC, C05-ORDER, C05-PLACE, C05-RETURN,
-C05-STALE:<query>[@iter-raises], C05-PLACEMENT-CACHE, C05-ALIAS, C05-NORAISE (a call the
+C05-STALE:<query>[@iter-raises], C05-PLACEMENT-CACHE, C05-ALIAS, C05-HASH, C05-FACTORIZE, C05-NORAISE (a call the
 documentation says fails returned normally), C05-SUT-EXCEPTION (runner).  Fingerprints are
 `<class>@<fault kind>:<method that last created/edited the circuit>`.  A violation whose
 fingerprint is listed in known_findings.json is recorded (class suffix `~known`), the circuit
@@ -53,9 +53,9 @@ def raising_iter(items: Sequence, k: int):
 
 
 # op kinds, simplest first
-K_X, K_CZ, K_M1, K_CC, K_PAR, K_TAG, K_M2, K_CNOT, K_CM, K_CO = range(10)
-KIND_WEIGHTS = [6, 3, 4, 4, 2, 2, 2, 2, 2, 2]
-KIND_NAMES = ["X", "CZ", "M", "CC", "PAR", "TAGGED", "M2", "CNOT", "CIRCUIT-OP-2Q", "CIRCUIT-OP"]
+K_X, K_CZ, K_M1, K_CC, K_PAR, K_TAG, K_M2, K_CNOT, K_CM, K_CO, K_CCZ = range(11)
+KIND_WEIGHTS = [6, 3, 4, 4, 2, 2, 2, 2, 2, 2, 1]
+KIND_NAMES = ["X", "CZ", "M", "CC", "PAR", "TAGGED", "M2", "CNOT", "CIRCUIT-OP-2Q", "CIRCUIT-OP", "CCZ"]
 
 MUTATORS = ["append", "insert", "iadd", "insert_into_range", "insert_at_frontier", "batch_insert",
             "batch_insert_into", "batch_remove", "batch_replace", "clear", "setitem_int",
@@ -104,6 +104,8 @@ class Reg:
             g, a = cirq.X(Q[qs[0]]), AOp(uid, qs[:1])
         elif kind == K_CZ:
             g, a = cirq.CZ(Q[qs[0]], Q[qs[1]]), AOp(uid, qs[:2])
+        elif kind == K_CCZ:
+            g, a = cirq.CCZ(Q[qs[0]], Q[qs[1]], Q[qs[2]]), AOp(uid, qs[:3])
         elif kind == K_CNOT:
             g, a = cirq.CNOT(Q[qs[0]], Q[qs[1]]), AOp(uid, qs[:2])
         elif kind == K_M1:
@@ -251,6 +253,7 @@ class Run:
         self.cur = ("construct", "ok")
         self.faults_on: Dict[str, int] = {}
         self.n_mut = 0
+        self.do_factor = False
 
     # ------------------------------------------------------------------ reporting
     def flag(self, cls: str, msg: str, fp: Optional[str] = None, who: Optional[int] = None) -> None:
@@ -297,7 +300,7 @@ class Run:
         for m in circ.moments:
             ent = self.moment_ok.get(id(m))
             if ent is None or ent[0] is not m:
-                ent = (m, cirq.Moment(list(m.operations)), False)
+                ent = (m, cirq.Moment(list(m.operations)), False, cirq.Moment(list(reversed(m.operations))))
                 self.moment_ok[id(m)] = ent
             ms.append(ent[1])
         return cirq.Circuit(ms, tags=circ.tags)
@@ -307,14 +310,23 @@ class Run:
         t = self.tape
         kind = t.weighted(KIND_WEIGHTS, "op-kind")
         if on is not None:
-            if len(on) == 1:
+            if len(on) == 3:
+                kind = K_CCZ
+            elif len(on) == 1:
                 kind = kind if kind in (K_X, K_M1, K_CC, K_PAR, K_TAG, K_CO) else K_X
             else:
                 kind = kind if kind in (K_CZ, K_M2, K_CNOT, K_CM) else K_CZ
             qs = on
         else:
             a = t.draw(NQ, "qubit")
-            qs = (a, (a + 1 + t.draw(NQ - 1, "qubit2")) % NQ) if kind in (K_CZ, K_M2, K_CNOT, K_CM) else (a,)
+            if kind in (K_CZ, K_M2, K_CNOT, K_CM, K_CCZ):
+                b = (a + 1 + t.draw(NQ - 1, "qubit2")) % NQ
+                qs = (a, b)
+                if kind == K_CCZ:
+                    rest = [x for x in range(NQ) if x not in (a, b)]
+                    qs = (a, b, rest[t.draw(len(rest), "qubit3")])
+            else:
+                qs = (a,)
         key = KEYS[t.draw(2, "key")] if kind in (K_M1, K_M2, K_CC, K_CM, K_CO) else "a"
         sym = SYMS[t.draw(2, "sym")] if kind == K_PAR else "t"
         return self.reg.make(kind, tuple(qs), key, sym)
@@ -548,7 +560,7 @@ class Run:
         for j, m in enumerate(c.moments):
             ent = self.moment_ok.get(id(m))
             if ent is None or ent[0] is not m:
-                ent = (m, cirq.Moment(list(m.operations)), False)
+                ent = (m, cirq.Moment(list(m.operations)), False, cirq.Moment(list(reversed(m.operations))))
                 self.moment_ok[id(m)] = ent
             if not ent[2]:
                 bad = self.check_moment(m, ent[1])
@@ -556,7 +568,12 @@ class Run:
                     self.flag(f"C05-STALE:{bad}", f"circuit {i} moment {j} ({m!r}) answers differently from a "
                                                   f"Moment rebuilt from its operations", who=i)
                     return False
-                self.moment_ok[id(m)] = (m, ent[1], True)
+                rm = ent[3]
+                if not (m == rm) or not (rm == m) or hash(m) != hash(rm) or len({m, rm}) != 1:
+                    self.flag("C05-HASH", f"circuit {i} moment {j}: {m!r} and the Moment holding the same operations "
+                                          f"in reverse order: == is {m == rm}, equal hashes is {hash(m) == hash(rm)}", who=i)
+                    return False
+                self.moment_ok[id(m)] = (m, ent[1], True, rm)
         fresh = self.fresh_of(c)
         clone = clone_with_caches(c)
         alive = tuple(getattr(c, f, None) is not None for f in CACHE_FIELDS)
@@ -584,6 +601,20 @@ class Run:
         if not (fz == ff) or hash(fz) != hash(ff) or list(fz.moments) != list(ff.moments) or fz.tags != ff.tags:
             self.flag("C05-STALE:freeze", f"circuit {i}: freeze() gives {_short(fz)}, rebuilt copy {_short(ff)}", who=i)
             return False
+        # ... and as an equal circuit written down differently would: same operations, other order
+        # inside each moment, built through the public constructor.  Equality and hashing.
+        ref = cirq.Circuit([self.moment_ok[id(m)][3] for m in c.moments], tags=c.tags)
+        rz = ref.freeze()
+        facts = (clone == ref, ref == clone, fz == rz, rz == fz, hash(fz) == hash(rz), len({fz, rz}) == 1,
+                 fz in {rz: 0})
+        if facts != (True,) * 7:
+            self.flag("C05-HASH", f"circuit {i} ({M.show(lv.m)}) against an equal circuit whose moments list the "
+                                  f"operations in reverse order: (c==ref, ref==c, frozen==, frozen== reversed, equal "
+                                  f"hashes, one element in a set, dict lookup) = {facts}", who=i)
+            return False
+        if self.do_factor:
+            if not self.factor_oracle(i, clone):
+                return False
         for name, fn in (("frozen.all_qubits", lambda z: z.all_qubits()),
                          ("frozen.all_operations", lambda z: list(z.all_operations())),
                          ("frozen.keys", lambda z: (z.all_measurement_key_objs(), cirq.control_keys(z))),
@@ -627,6 +658,64 @@ class Run:
                 return False
         return True
 
+    def factor_oracle(self, i: int, c) -> bool:
+        """get_independent_qubit_sets() / factorize() against the model: the sets are the connected
+        components of 'two qubits share an operation' over all qubits of the circuit; the factors
+        partition the operations, act on pairwise disjoint qubits, keep the moment structure, and
+        zip back to the circuit."""
+        lv = self.pool[i]
+        L = lv.m
+        parent: Dict[int, int] = {}
+
+        def find(x: int) -> int:
+            while parent[x] != x:
+                parent[x] = parent[parent[x]]
+                x = parent[x]
+            return x
+
+        for m in L:
+            for o in m:
+                for q in o.qubits:
+                    parent.setdefault(q, q)
+                for q in o.qubits[1:]:
+                    ra, rb = find(o.qubits[0]), find(q)
+                    if ra != rb:
+                        parent[max(ra, rb)] = min(ra, rb)
+        comps: Dict[int, List[int]] = {}
+        for q in sorted(parent):
+            comps.setdefault(find(q), []).append(q)
+        want = sorted(comps.values())
+        got = sorted(sorted(q.x for q in s) for s in c.get_independent_qubit_sets())
+        if got != want:
+            self.flag("C05-FACTORIZE", f"circuit {i} ({M.show(L)}): get_independent_qubit_sets() = {got}, but the "
+                                       f"qubits connected through operations are {want}", who=i)
+            return False
+        factors = list(c.factorize())
+        lays = [self.decode(f) for f in factors]
+        fq = [sorted({q for m in lay for o in m for q in o.qubits}) for lay in lays]
+        allu = sorted(u for lay in lays for u in M.uids_of(lay))
+        problem = None
+        if len(want) != 1 and sorted(fq) != want:
+            problem = f"factors act on {fq}, independent sets are {want}"
+        elif any(set(a) & set(b) for x, a in enumerate(fq) for b in fq[x + 1:]):
+            problem = f"factors overlap on qubits: {fq}"
+        elif factors and allu != M.uids_of(L):
+            pr = M.conservation(M.uids_of(L), allu)
+            problem = f"operations over all factors: {pr[1] if pr else 'differ'}"
+        elif any(len(lay) != len(L) for lay in lays):
+            problem = f"factor lengths {[len(lay) for lay in lays]} for a circuit of {len(L)} moments"
+        elif factors:
+            try:
+                z = cirq.Circuit.zip(*factors)
+                if not M.same_layout(self.decode(z), L):
+                    problem = f"zip of the factors is {M.show(self.decode(z))}"
+            except ValueError as e:
+                problem = f"zip of the factors raises {e!s:.120}"
+        if problem is not None:
+            self.flag("C05-FACTORIZE", f"circuit {i} ({M.show(L)}).factorize() -> {[M.show(x) for x in lays]}: {problem}", who=i)
+            return False
+        return True
+
     def repair(self, i: int) -> None:
         """After a *known* finding: continue the history on a rebuilt circuit object."""
         lv = self.pool[i]
@@ -636,6 +725,7 @@ class Run:
 
     def check_all(self, final: bool = False) -> None:
         s = self.tape.draw(6, "query-start")
+        self.do_factor = self.tape.chance(1, 3, "factorize?")
         for i, lv in enumerate(self.pool):
             N = self.decode(lv.c)
             if not M.same_layout(N, lv.m):
